@@ -15,7 +15,10 @@ let do_shape () =
   (match kind with
    | "push" -> let m = nexti () in let v = nextcs m in print_cs "vec" (shape_push (z_of_int n) v)
    | "pp" -> let m = nexti () in let v = nextcs m in print_cs "vec" (shape_pp (z_of_int n) v)
-   | "const" -> let a = nextq () in let b = nextq () in print_cs "vec" (shape_const (z_of_int n) (a, b))
+   | "const" -> let a = nextq () in let b = nextq () in
+     print_cs "vec" (shape_const (z_of_int n) (a, b));
+     (* the generated ConstImpedance::__calcImpedance (Gen_Imp.v) on the same constant *)
+     print_cs "gvec" (gen_const_q (z_of_int n) (a, b))
    | _ -> failwith "shape kind");
   print_string "end\n"
 
@@ -26,6 +29,7 @@ let do_sum () =
   let l = nextcs n in let r = nextcs m in
   Printf.printf "case %s\n" id;
   print_cs "out" (sum_q l r);
+  print_cs "gout" (gen_sum_q l r);       (* the generated Impedance::operator+= *)
   print_string "end\n"
 
 (* factory <id> n gap use_csr s xi rc ; pp m v ; fs m v ; rw m v ; coll re im ; file -1 | m v *)
@@ -43,6 +47,11 @@ let do_factory () =
   (match factory_q (z_of_int n) gap use_csr s xi rc ppv fsv rwv (ca, cb) file with
    | None -> print_string "null\n"
    | Some v -> print_cs "out" v);
+  (* the generated vfps::makeImpedance with the implementation's own contribution vectors; the
+     collimator's vector is its constant on the generated ConstImpedance loop *)
+  (match gen_factory_q (z_of_int n) gap use_csr s xi rc ppv fsv rwv (gen_const_q (z_of_int n) (ca, cb)) file with
+   | None -> print_string "gnull\n"
+   | Some v -> print_cs "gout" v);
   print_string "end\n"
 
 (* accept <id> fs tol cre cim delta n m v | rw tol k delta n m v | const lo hi n m v *)
@@ -60,6 +69,18 @@ let do_accept () =
    | "const" -> let lo = nextq () in let hi = nextq () in
      let n = nexti () in let m = nexti () in let v = nextcs m in
      pb "ok" (accept_const lo hi (z_of_int n) v)
+   (* validators fed by the constants of Model/ImpedanceSpec.v (proved equal to the generated expressions):
+      fss tol n f_rev f_max m v | rws tol pi c Z0 n f0 f_max L s xi b m v | colls tol pi Z0 lnlo lnhi n m v *)
+   | "fss" -> let tol = nextq () in let n = nexti () in let fr = nextq () in let fm = nextq () in
+     let m = nexti () in let v = nextcs m in
+     pb "ok" (accept_fs_spec tol (z_of_int n) fr fm v)
+   | "rws" -> let tol = nextq () in let pi = nextq () in let c = nextq () in let z0 = nextq () in
+     let n = nexti () in let f0 = nextq () in let fm = nextq () in let l = nextq () in let s = nextq () in
+     let xi = nextq () in let b = nextq () in let m = nexti () in let v = nextcs m in
+     pb "ok" (accept_rw_spec tol pi c z0 (z_of_int n) f0 fm l s xi b v)
+   | "colls" -> let tol = nextq () in let pi = nextq () in let z0 = nextq () in let lo = nextq () in let hi = nextq () in
+     let n = nexti () in let m = nexti () in let v = nextcs m in
+     pb "ok" (accept_coll_spec tol pi z0 lo hi (z_of_int n) v)
    | _ -> failwith "accept kind");
   print_string "end\n"
 
